@@ -27,11 +27,11 @@ Definition tcres_eqb (a b : tcres) : bool :=
 
 Fixpoint comparable (t : ty) : bool :=
   match t with
-  | TInt | TNat | TString | TBytes | TBool | TUnit => true
+  | TInt | TNat | TString | TBytes | TBool | TUnit | TMutez | TTimestamp => true
   | TPair a b => comparable a && comparable b
   | TOption a => comparable a
   | TOr a b => comparable a && comparable b
-  | TList _ | TOperation => false
+  | TList _ | TOperation | TAddress | TChainId => false   (* address/chain_id are comparable in Michelson; their order is property C03's subject and outside this fragment *)
   end.
 
 (* both branches of a conditional must agree unless one of them fails *)
@@ -48,13 +48,30 @@ Definition add_ty (a b : ty) : option ty :=
   match a, b with
   | TNat, TNat => Some TNat
   | TNat, TInt | TInt, TNat | TInt, TInt => Some TInt
+  | TTimestamp, TInt | TInt, TTimestamp => Some TTimestamp
+  | TMutez, TMutez => Some TMutez
   | _, _ => None
   end.
-Definition sub_ty (a b : ty) : option ty := if num a && num b then Some TInt else None.
+Definition mul_ty (a b : ty) : option ty :=
+  match a, b with
+  | TNat, TNat => Some TNat
+  | TNat, TInt | TInt, TNat | TInt, TInt => Some TInt
+  | TMutez, TNat | TNat, TMutez => Some TMutez
+  | _, _ => None
+  end.
+(* SUB on mutez is deprecated (rejected by the protocol's type checker): SUB_MUTEZ is the instruction *)
+Definition sub_ty (a b : ty) : option ty :=
+  match a, b with
+  | TTimestamp, TInt => Some TTimestamp
+  | TTimestamp, TTimestamp => Some TInt
+  | _, _ => if num a && num b then Some TInt else None
+  end.
 Definition ediv_ty (a b : ty) : option ty :=
   match a, b with
   | TNat, TNat => Some (TOption (TPair TNat TNat))
   | TNat, TInt | TInt, TNat | TInt, TInt => Some (TOption (TPair TInt TNat))
+  | TMutez, TNat => Some (TOption (TPair TMutez TMutez))
+  | TMutez, TMutez => Some (TOption (TPair TNat TMutez))
   | _, _ => None
   end.
 
@@ -91,7 +108,14 @@ Definition tc_simple (i : instr) (s : sty) : option sty :=
               | TString :: r | TBytes :: r | TList _ :: r => Some (TNat :: r)
               | _ => None
               end
-  | I_ADD | I_MUL => match s with a :: b :: r => option_map (fun t => t :: r) (add_ty a b) | _ => None end
+  | I_ADD => match s with a :: b :: r => option_map (fun t => t :: r) (add_ty a b) | _ => None end
+  | I_MUL => match s with a :: b :: r => option_map (fun t => t :: r) (mul_ty a b) | _ => None end
+  | I_SUB_MUTEZ => match s with TMutez :: TMutez :: r => Some (TOption TMutez :: r) | _ => None end
+  | I_AMOUNT | I_BALANCE => Some (TMutez :: s)
+  | I_SENDER | I_SOURCE | I_SELF_ADDRESS => Some (TAddress :: s)
+  | I_NOW => Some (TTimestamp :: s)
+  | I_LEVEL => Some (TNat :: s)
+  | I_CHAIN_ID => Some (TChainId :: s)
   | I_SUB => match s with a :: b :: r => option_map (fun t => t :: r) (sub_ty a b) | _ => None end
   | I_EDIV => match s with a :: b :: r => option_map (fun t => t :: r) (ediv_ty a b) | _ => None end
   | I_NEG => match s with a :: r => if num a then Some (TInt :: r) else None | _ => None end
